@@ -31,6 +31,8 @@ def c01(ck, F, tier):
     guarded(ck, um.arms_undo_redo, F, "undo")
     guarded(ck, um.rec_rule, F)
     guarded(ck, um.rec_args, F)
+    ck.rule("REPLAY-ARGS", "replay arms pass the recorded field for every like-named parameter", floor=60)
+    guarded(ck, um.replay_args, F)
 
 
 def c02(ck, F, tier):
@@ -50,6 +52,10 @@ def c02(ck, F, tier):
     guarded(ck, um.wmc_stacks, F)
     guarded(ck, um.arms_pair, F)
     guarded(ck, um.replay_pure, F)
+    ck.rule("REPLAY-ARGS", "replay arms pass the recorded field for every like-named parameter", floor=60)
+    guarded(ck, um.replay_args, F)
+    ck.rule("CANON-RECORD", "recorded text that replay re-parses is language-independent", floor=10)
+    guarded(ck, um.canon_record, F)
 
 
 def c03(ck, F, tier):
@@ -69,6 +75,10 @@ def c03(ck, F, tier):
     guarded(ck, um.wmc_stacks, F)
     guarded(ck, um.rec_rule, F)
     guarded(ck, um.queue_append_only, F)
+    ck.rule("REPLAY-ARGS", "replay arms pass the recorded field for every like-named parameter", floor=60)
+    guarded(ck, um.replay_args, F)
+    ck.rule("CANON-RECORD", "recorded text that replay re-parses is language-independent", floor=10)
+    guarded(ck, um.canon_record, F)
 
 
 def c04(ck, F, tier):
